@@ -26,6 +26,12 @@ def compare(rep, cases, impl, model, what, limit=5):
         n = len(fields) - 1
         a = impl.get(cid)
         b = model.get(cid)
+        if a and a[0].startswith("X not-run"):
+            continue
+        if a and a[0].startswith("P process-died"):
+            rep.violation({"what": "the interpreter process died (abort / stack overflow / out of memory) on this program",
+                           "program": fields, "implementation": a})
+            continue
         if a is None or b is None or len(a) < n or len(b) < n:
             rep.violation({"broken": "runner lost a case", "case": fields, "impl": a, "model": b}, no_input=True)
             continue
